@@ -40,3 +40,10 @@ package server
 //@ func server.(*Server).StreamSearch
 //@   requires s != nil && s.streamer != nil && ss != nil
 //@   ensures true
+
+// List: a request without query or options is answered too (nil options are
+// handed on as nil, which the implementations accept; the list handed back
+// with a nil error is assumed non-nil - interface contract zoekt.Streamer.List).
+//@ func server.(*Server).List
+//@   requires s != nil && s.streamer != nil
+//@   ensures true
